@@ -51,6 +51,21 @@ def step (s : S) (line : String) : S × String :=
       | .stuck => (s, "stuck")
       | .panic => (s, "panic")
     | none => (s, "bad-op")
+  | ["putb", z, n] =>     -- a reservation during which a reader of ticket `n` detects corruption: the callback only
+                          -- raises the quarantine counter (an atomic max), which commutes with the rest of `Put`
+    match nat? z, (nat? n).bind s.ticket? with
+    | some z, some tn =>
+      match put s.cfg 1000 z s.st with
+      | .ok (t, st) =>
+        let during := st.pushes > s.st.pushes   -- a block was allocated: the detection came during the reservation
+        let st := reportCorruption (unpin st t.blk) tn.blk
+        -- the harness asks the finalizer for the location right after the reservation
+        ({ s with st := st, tickets := t :: s.tickets },
+         if !during || finalizeOk st t then s!"ok {s.tickets.length} {t.blk - st.released} {t.off}" else "err finalize-internal")
+      | .err e st => ({ s with st := reportCorruption st tn.blk }, s!"err {e}")
+      | .stuck => (s, "stuck")
+      | .panic => (s, "panic")
+    | _, _ => (s, "bad-op")
   | ["fin", n] =>
     match (nat? n).bind s.ticket? with
     | some t => (s, if finalizeOk s.st t then s!"ok {t.blk - s.st.released} {t.off}" else "err internal")
